@@ -46,7 +46,7 @@ theorem call_np (n : Nat) (b : Buf) (h : WF n b) (m : Method) : NoPanic (call b 
   | toByteSlice max => exact (toByteSlice_good n b max h).1
   | toChunkReader off all => exact toChunkReader_np n b off all h
   | toReader all => exact toReader_np n b all h
-  | discard => exact discard_np b
+  | discard => exact discard_np n b h
 
 /-! ### building -/
 
